@@ -5,6 +5,7 @@ package svc
 
 import (
 	"context"
+	"errors"
 	"io"
 	"sync"
 	"time"
@@ -216,8 +217,13 @@ func Invoke(ctx context.Context, cc grpc.ClientConnInterface, tag string, req []
 // Stream wraps a grpc.ClientStream with the generic-stub operations.
 type Stream struct {
 	grpc.ClientStream
-	Kind string
+	Kind  string
+	recvN int
 }
+
+// ErrRecvNeverEnds is returned by Recv after 50000 successful receives on one stream: no
+// workload sends that many, so the stream keeps "succeeding" without ever ending.
+var ErrRecvNeverEnds = errors.New("verif: stream still returning messages after 50000 receives")
 
 // Open opens a stream. For server-streaming it performs, like generated code,
 // Send(req) and CloseSend, returning the first error.
@@ -242,6 +248,10 @@ func Open(ctx context.Context, cc grpc.ClientConnInterface, kind, tag string, se
 func (s *Stream) Send(b []byte) error { return s.SendMsg(&BV{Value: b}) }
 
 func (s *Stream) Recv() ([]byte, error) {
+	s.recvN++
+	if s.recvN > 50000 {
+		return nil, ErrRecvNeverEnds
+	}
 	m := new(BV)
 	if err := s.RecvMsg(m); err != nil {
 		return nil, err
